@@ -55,7 +55,7 @@ def hashCode (o : Opts) : Json → UInt64
   | .null => fnv1a Gen.seedNull
   | .bool true => ofLe8 Gen.hashTrue
   | .bool false => ofLe8 Gen.hashFalse
-  | .num bits => fnv1a (le8 bits)
+  | .num bits => fnv1a (le8 (if bits == 0x8000000000000000 then 0 else bits))   -- 0 and -0 hash alike
   | .str s => fnv1a (strBytes s)
   | .arr t xs =>
     match effTag o t with
